@@ -7,7 +7,8 @@ from . import doccommon as DC
 THEOREMS = ['C10_all_schema_reference_attributes_scanned (obligation on regenerated tables)', 'C10_direct', 'C10_transitive', 'C10_unchanged', 'C10_once']
 RULE = ('style graphs: 3-9 automatic styles of every kind (paragraph, text, table-cell, graphic styles, list styles, number styles, page '
         'layouts) referenced through EVERY style reference attribute of the ODF 1.2 schema (read from the RNG by the harness) x {body, '
-        'page header of a master page, another automatic style (attribute on the style or on an element inside it)}, chains of length 0-3, '
+        'page header of a master page, another automatic style (attribute on the style or on an element inside it)}, chains of length 0-3; '
+        'every graph also holds a used style that names another one - named nowhere else when possible - from its own attribute, from a child element or from a grandchild element; '
         'lists of names (class-names). correspondence: the selected lists of _used_auto_styles for content.xml and styles.xml, and the '
         'bytes of contentxml()/stylesxml(), vs the extracted model. oracle: save(), parse content.xml and styles.xml with expat, resolve '
         'every reference site against the automatic styles present in the same part (an independent fixpoint over the source document '
@@ -48,6 +49,18 @@ def run(ctx):
             DC.add_reference(ctx.rng, doc, names, where, attr, target)
             ctx.rng._second = None
             refs.append((where, attr[1], target))
+        if len(names) >= 2:
+            # always: a style that is used, and that names another one from an element inside it - the other one named nowhere else if possible
+            used_names = set(tk for w, a, tg in refs if not w.startswith('auto') for tk in tg.split())
+            named = set(tk for w, a, tg in refs for tk in tg.split())
+            host = ctx.rng.choice(sorted(used_names & set(names)) or names)
+            free = [x for x in names if x not in named and x != host]
+            tgt = ctx.rng.choice(free or [x for x in names if x != host])
+            attr = attr_cycle[(i * 7 + 3) % len(attr_cycle)]
+            mode = ['autochild', 'autodeep', 'autoattr'][i % 3]
+            if host not in used_names:
+                DC.add_reference(ctx.rng, doc, names, ['body', 'master'][i % 2], allrefs[i % len(allrefs)], host); refs.append((['body', 'master'][i % 2], allrefs[i % len(allrefs)][1], host))
+            DC.add_reference(ctx.rng, doc, names, mode + ':' + host, attr, tgt); refs.append((mode + ':' + host, attr[1], tgt))
         case = {'styles': names, 'references': refs}
         autos_t = X.walk_real(doc.automaticstyles)
         # ---- correspondence --------------------------------------------------------------------------
@@ -84,7 +97,7 @@ def run(ctx):
                 nm = key(s) if s[0] == 'E' else None
                 if nm in src_by_name and X.canon(s) != src_by_name[nm]:
                     ctx.violation('style-definition-changed', dict(case, part=part, style=nm), s, src_by_name[nm], {})
-        if any((a[0].split(':')[-2] if ':' in a[0] else a[0], a[1]) not in old11 for a in [(x[0], x[1]) for x in allrefs if x[1] in [r[1] for r in refs]]) or any(w.startswith('auto:') for w, _, _ in refs):
+        if any((a[0].split(':')[-2] if ':' in a[0] else a[0], a[1]) not in old11 for a in [(x[0], x[1]) for x in allrefs if x[1] in [r[1] for r in refs]]) or any(w.startswith('auto') for w, _, _ in refs):
             ctx.nt(repr(case))
         ctx.bump('refs=%d' % len(refs))
         for w, a, t_ in refs: ctx.bump('via=' + a)
